@@ -31,7 +31,10 @@ def parse_obs(o):
 TRUSTED = ["Coq 8.16.1 kernel (coqc; vm_compute for finite sweeps and witnesses), no axioms",
            "extraction (ExtrOcamlBasic only) + ocaml/drv_tok.ml glue, whose strtod oracle is OCaml float_of_string",
            "harness/drv_tok.c, jvtext.h, xalloc.c; gcc -fsanitize=address,undefined",
-           "libc strtod (oracle), strtoll/strtoull modelled exactly"]
+           "libc strtod (oracle), strtoll/strtoull modelled exactly",
+           "tr/tok_consts.py (regular-expression translator of json_tokener.h/.c/json_util.h into coq/theories/TokImpl.v: enumerations, switch cases, "
+           "flag bits, default depth, literals, size-guard comparison; fails loudly on any other shape); TokImplCheck.v re-proves on every run that the "
+           "model's vocabulary is the source's"]
 
 
 def mem_ok(need_bytes):
@@ -60,3 +63,33 @@ def mem_ok(need_bytes):
         return True
     except Exception:
         return False
+
+
+TRANSLATOR = {}
+
+
+def coq_extra():
+    """regenerate coq/theories/TokImpl.v (the tokener's vocabulary: state and error enumerations, switch cases, flag
+    bits, default depth, literals, size-guard comparison) from the working tree; TokImplCheck.v re-proves that the
+    model uses exactly that"""
+    import fcntl, subprocess
+    import fw
+    sys.path.insert(0, os.path.join(fw.VERIF, "tr"))
+    import tok_consts
+    os.makedirs(os.path.join(fw.VERIF, "build"), exist_ok=True)
+    with open(os.path.join(fw.VERIF, "build", "tokimpl.lock"), "w") as lock:
+        fcntl.flock(lock, fcntl.LOCK_EX)
+        ok, msg, info = tok_consts.regenerate(fw.REPO, fw.VERIF)
+        TRANSLATOR.update(recognised=ok, message=msg, info=info)
+        if not ok:
+            print("TRANSLATOR: tr/tok_consts.py does not recognise the tokener source: %s" % msg)
+        v = os.path.join(fw.VERIF, "coq", "theories", "TokImpl.v")
+        vo = v + "o"
+        if not os.path.exists(vo) or os.path.getmtime(vo) < os.path.getmtime(v):
+            subprocess.run(["timeout", "600", "coqc", "-Q", "theories", "JC", "theories/TokImpl.v"], cwd=os.path.join(fw.VERIF, "coq"),
+                           stdout=subprocess.PIPE, stderr=subprocess.STDOUT)
+    return ["theories/TokImplCheck.v"]
+
+
+def extra_coverage():
+    return dict(translator=dict(TRANSLATOR))
